@@ -55,14 +55,52 @@ prop(
 
 prop(
     "C08",
+    ready=True,
     level="other",
-    explanation="draft",
-    bounds="draft",
-    outside="draft",
-    level_text="draft",
-    level_note="draft",
-    technique="Kani/CBMC harnesses on the real encoders/decoders",
-    assumptions=[],
+    explanation=(
+        "Per submessage kind (ACKNACK, GAP, HEARTBEAT, HEARTBEAT_FRAG, NACK_FRAG, INFO_TS, INFO_DST, INFO_SRC, PAD, DATA, "
+        "DATA_FRAG) a value with symbolic fields is built, encoded by the real container RtpsMessageWrite::new "
+        "(Cursor<Vec<u8>>, write_submessage_into_bytes with the back-patched octetsToNextHeader) and decoded again by the "
+        "real decoders; asserted: the RTPS header bytes, the submessage id, the little-endian flag and the other flags, "
+        "octetsToNextHeader == number of element bytes that follow, and equality of every field (sequence numbers over "
+        "the full i64 range, set base full range with a symbolic bitmap, counts full i32, fragment fields full u16/u32, "
+        "payload and parameter bytes). HEARTBEAT goes through the whole parser RtpsMessageRead::try_from; for the other "
+        "kinds the two calls of the dispatcher arm (SubmessageHeaderRead::try_read_from_bytes + the kind's "
+        "try_from_bytes) are applied to the encoded message, because a harness that reaches all twelve decoders spends "
+        "minutes in result processing. Big-endian decode: HEARTBEAT and ACKNACK images written by a 15-line harness-side "
+        "big-endian writer (flag E clear) decode through RtpsMessageRead::try_from to the values they were written from. "
+        "Tractability devices, all semantic no-ops: flags are enumerated concretely; the bytes the parser branches on "
+        "(protocol id, submessage id, flags, octetsToNextHeader, numBits, parameter length, sentinel) are first asserted "
+        "to equal their expected constants and then re-written with those constants in a local copy of the message so "
+        "that CBMC sees them as constants (the container's heap Vec is opaque to its constant propagation); "
+        "SequenceNumberSet / FragmentNumberSet values are obtained from the real element decoders applied to "
+        "harness-written images (bits >= numBits clear, highest bit set - the shape the constructors produce) because "
+        "the constructors on a symbolic member list make every encoder length symbolic."),
+    bounds="quick: one or two flag combinations per kind; SequenceNumberSet numBits 34 (ACKNACK) / 41 (GAP) with symbolic "
+           "bitmap; FragmentNumberSet numBits 34 with the concrete members {0,2,32,33} and symbolic base; DATA payload 5 / 4 "
+           "bytes, DATA_FRAG payload 4 bytes, inline QoS <= 1 parameter of 4 bytes; messages <= 64 bytes; unwind <= 64. "
+           "thorough: remaining flag combinations, numBits 0/1/32/64/256, DATA payload 0/8, DATA_FRAG with inline QoS",
+    outside="payloads / submessages longer than 65 535 bytes: write_submessage_into_bytes truncates with `len as u16` "
+            "(overall_structure.rs:273) without a check - not decided here (a 65 536-iteration byte-wise Vec::resize per "
+            "message is not tractable); the UDP transport limits the fragment size to 65 000 (C38), so the truncation is only "
+            "reachable with another transport whose fragment_size exceeds 65 515; parameter values longer than 32 767 bytes "
+            "(`length as i16`) and values whose length is not a multiple of 4 (padded on the wire, decode to the padded "
+            "value); a parameter id equal to PID_SENTINEL; messages with more than one submessage (covered for the parser "
+            "under C06); INFO_REPLY (never built by dust-dds; its decoder is under C07); FragmentNumberSet with arbitrary "
+            "bitmaps (decoder not tractable, see C07); SequenceNumberSet values with stray bits above numBits; big-endian "
+            "decode of kinds other than HEARTBEAT / ACKNACK (all decoders share the same four endian-aware primitive "
+            "readers, exercised for both byte orders under C07)",
+    level_text="Bounded symbolic execution of the real encoder and decoders: all field values over their full machine domain "
+               "for the stated shapes (flag combinations, set widths, payload sizes); nothing is sampled.",
+    level_note="trusted: Kani/CBMC, the harness-side framing oracle (RTPS 2.x clause 9.4 offsets) and the 15-line big-endian writer",
+    technique="Kani/CBMC proof harnesses on rtps_messages::overall_structure::{RtpsMessageWrite, RtpsMessageRead} and the submessage encoders / decoders",
+    assumptions=[
+        "parameter id != PID_SENTINEL, parameter value length a multiple of 4",
+        "SequenceNumberSet / FragmentNumberSet values are those the real element decoders yield for images with bits >= numBits clear and bit numBits-1 set",
+        "FragmentNumberSet base <= u32::MAX - 33 (no member overflows u32, cf. KF-C07-2)",
+    ],
+    timeout={"quick": 900, "thorough": 1800},
+    mem_gb=8,
 )
 
 prop(
